@@ -241,7 +241,7 @@ let handle (f : string list) : string =
       | "OpCallMacro" -> gen_OpCallMacro | "OpShow" -> gen_OpShow | "OpText" -> gen_OpText
       | _ -> failwith ("op " ^ op) in
     let k = match kind with
-      | "stop" -> KStop | "out" -> KOut | "fatal" -> KFatal | "scriggo" -> KScriggoRuntime | "go" -> KGoRuntime
+      | "stop" -> KStop | "out" -> KOut | "fatal" -> KFatal | "panicerror" -> KPanicError | "scriggo" -> KScriggoRuntime | "go" -> KGoRuntime
       | "string" -> KString | "error" -> KError | "other" -> KOther | _ -> failwith ("kind " ^ kind) in
     let p = { p_kind = k; p_msg = bytes_of_hex msg; p_id = n_of_int 7 } in
     (match vm_run false false [SgRaise (false, opz, b01 cn, p, O)] with
